@@ -16,8 +16,13 @@ def _ts():
     return _TS
 
 
-def decode(data, plugins=False, every=True):
-    """returns dict(outcome, doc (OrderedDict or None), final_index, boundaries, events, stderr, stdout)"""
+def decode(data, plugins=False, every=True, allow_proc=False):
+    """returns dict(outcome, doc (OrderedDict or None), final_index, boundaries, events, stderr, stdout)
+    allow_proc: when the case at hand runs the tool as a real process (seams.set_proc_variant) and no parser
+    plug-in is wanted, decode through `peltool -f` in that process instead (no cursor events then)"""
+    from . import seams
+    if allow_proc and not plugins and every and seams._proc_variant:
+        return dict(decode_cli(data, plugins), cursor_seen=False)
     import pel.peltool.peltool as pt
     from pel.peltool.config import Config
     cfg = Config()
@@ -71,7 +76,13 @@ def decode_cli(data, plugins=False):
     from . import seams
     path = os.path.join(seams.scratch_dir('pelrun'), 'one.pel')
     seams.write_file(path, bytes(data))
-    res = seams.run_cli(['-f', path, '-E'] + ([] if plugins else ['-P']))
+    saved = seams._proc_variant
+    if plugins:
+        seams.set_proc_variant(None)         # the fixture parser packages exist in THIS process only
+    try:
+        res = seams.run_cli(['-f', path, '-E'] + ([] if plugins else ['-P']))
+    finally:
+        seams.set_proc_variant(saved)
     os.remove(path)
     outcome, doc, detail = 'error', None, ''
     if res['uncaught']:
@@ -98,14 +109,16 @@ def observe(pel, family, plugins=False, standalone=True, env=None, extra=None, r
     """pel: abstract PEL (genpel/encode shape).  Returns one record for Trace_Pel."""
     wire = project.to_wire(pel)
     data = encode.encode(pel)
+    inproc_only = bool(env and (env.get('names') or env.get('registry')))     # tables installed in THIS process
     if res is None:
-        res = decode(data, plugins)
+        res = decode(data, plugins, allow_proc=not inproc_only)
     else:                                   # a decode made elsewhere (fresh interpreter): JSON keeps the key order
         res = dict(res, events=[], stderr='')
     rec = dict(family=family, shape_ok=True, abs=wire, bytes=data, outcome=res['outcome'],
                detail=res['detail'], final_index=res['final_index'], boundaries=res['boundaries'],
                keys=[], shown=dict(ph={}, uh={}, secs=[]), digests=[], alone=[],
-               env=env or dict(names=[], registry=[]), stdout_len=len(res['stdout']))
+               env=env or dict(names=[], registry=[]), stdout_len=len(res['stdout']) if res.get('cursor_seen', True) else 0,
+               cursor_seen=bool(res.get('cursor_seen', True)))
     if extra:
         rec.update(extra)
     doc = res['doc']
@@ -135,7 +148,7 @@ def observe(pel, family, plugins=False, standalone=True, env=None, extra=None, r
         alone = []
         for s in pel['secs']:
             mini = dict(ph=dict(pel['ph'], count=3), uh=pel['uh'], secs=[s])
-            r1 = decode(encode.encode(mini), plugins)
+            r1 = decode(encode.encode(mini), plugins, allow_proc=not inproc_only)
             if r1['doc'] is not None and len(r1['doc']) == 3:
                 alone.append(project.digest(list(r1['doc'].values())[2]))
             else:
